@@ -164,7 +164,8 @@ def run_history(ctx, case):
             if c12.consistent(nproj, [e[:3] for e in exclusions if e[0] == "timing" or not e[3]]) is False:
                 viol("returned_schedule_ignores_an_earlier_request", {"call": name, "projection": list(nproj)}, step)
                 return
-            if name == "solve" and single_opt and not exclusions:
+            if name == "solve" and single_opt and not exclusions and kw.get("optimizer") != "optimize":
+                # (the built-in z3 optimiser is not judged for optimality: it returns non-optimal models, DESIGN.md section 5)
                 val = objective_value(h)
                 if optimum is None:
                     optimum = val
